@@ -36,6 +36,11 @@ pub fn run(harness: &str, vals: Vec<Vec<u8>>) -> i32 {
         "k5_initexpr_index_instr_matches_spec" => bodies::k5_initexpr_index_instr_matches_spec(&mut s),
         "k5_spec_global_get" => bodies::k5_initexpr_index_instr_matches_spec_of(0, &mut s),
         "k5_spec_ref_func" => bodies::k5_initexpr_index_instr_matches_spec_of(1, &mut s),
+        "k5_spec_struct_new" => bodies::k5_initexpr_index_instr_matches_spec_of(2, &mut s),
+        "k5_spec_struct_new_default" => bodies::k5_initexpr_index_instr_matches_spec_of(3, &mut s),
+        "k5_spec_array_new" => bodies::k5_initexpr_index_instr_matches_spec_of(4, &mut s),
+        "k5_spec_array_new_default" => bodies::k5_initexpr_index_instr_matches_spec_of(5, &mut s),
+        "k5_spec_ref_i31" => bodies::k5_initexpr_index_instr_matches_spec_of(9, &mut s),
         _ => { println!("unknown harness {harness}"); return 2; }
     };
     match r {
